@@ -225,8 +225,6 @@ def run_c15_bmc(ck, tier, K=2):
                     continue
                 alts.append(z3.And(tr.sel[t] == n, tr.S[t].live(i)))
         loss.append(z3.Or(alts) if alts else z3.BoolVal(False))
-    known = {f['region']: f for f in ck.known}
-
     def on_w(m, where):
         rep, desc, sc, out = sysm.replay(m, tr)
         if rep:
@@ -246,6 +244,9 @@ def run_c15_bmc(ck, tier, K=2):
     R = {'overwrite-double-count': overwrite, 'failed-store-counted': failed, 'flush-not-accounted': flush, 'expiry-not-accounted': expiry,
          'reset-on-empty-store': some_step(lambda t: z3.Or([tr.sel[t] == n for n, s in enumerate(sysm.summaries) if hit_empty_reset(s)] or [z3.BoolVal(False)]))}
     ck.obligation(f'bmc-k{k}: no live item is evicted while the stored data fits under the limit', cs + fits, z3.Not(z3.Or(loss)), R, on_w, small)
+    # the known accounting defects only ever make the counter too high: after no history may it fall below the stored total
+    under = [z3.ULT(tr.S[t + 1].usage, total_size(tr.S[t + 1].present, tr.S[t + 1].val, K)) for t in range(k)]
+    ck.obligation(f'bmc-k{k}: the accounted usage never falls below the stored total', cs, z3.Not(z3.Or(under)), {}, on_w, small)
     return sysm, tr, cs
 
 
